@@ -46,6 +46,8 @@ type c18Job struct {
 	// Wide: every row carries that many additional low-cardinality columns (w000, w001, ...): one AddRow call then does
 	// hundreds of insertions, long enough for whatever it does between its first and last one to be observed
 	Wide int `json:"wide,omitempty"`
+	// TagLen: the unique tags are padded on the left to this length (tags then differ in their last bytes only)
+	TagLen int `json:"tag_len,omitempty"`
 }
 
 type c18Op struct {
@@ -67,6 +69,13 @@ type c18Result struct {
 // c18Row is the row goroutine g adds as its i-th: a unique tag plus 2-4 values
 // derived from it, so that the orchestrator can rebuild every row.
 func c18Row(g, i int, dup bool, wide ...int) oracle.Row {
+	if len(wide) > 1 && wide[1] > 0 {
+		r := c18Row(g, i, dup, wide[0])
+		if t, ok := r["tag"]; ok && len(t) < wide[1] {
+			r["tag"] = strings.Repeat("p", wide[1]-len(t)) + t
+		}
+		return r
+	}
 	if len(wide) > 0 && wide[0] > 0 {
 		r := c18Row(g, i, dup)
 		for k := 0; k < wide[0]; k++ {
@@ -174,7 +183,7 @@ func workerC18(args []string) int {
 							break
 						}
 					}
-					row := c18Row(g, i, job.Dup, job.Wide)
+					row := c18Row(g, i, job.Dup, job.Wide, job.TagLen)
 					if job.Reuse {
 						clear(own)
 						for k, v := range row {
@@ -295,6 +304,13 @@ func runC18(r *vf.Run) {
 			jobs = append(jobs, c18Job{ID: id, Writer: w, Goroutines: g, Total: total, Yield: k%2 == 0, Ticket: true, Reuse: k%3 == 1, Wide: wide, Out: filepath.Join(dir, id+".updog")})
 			k++
 		}
+	}
+	// (round 7) tags of one length per job, 119..133 and around 256: rows whose tags differ in the last bytes only
+	for ti, tl := range []int{119, 120, 121, 122, 123, 124, 125, 126, 127, 128, 129, 130, 131, 132, 133, 252, 253, 254, 255, 256, 257} {
+		w := []string{"mem", "big"}[ti%2]
+		id := fmt.Sprintf("job%03d-%s-taglen%d-n120-g8", k, w, tl)
+		jobs = append(jobs, c18Job{ID: id, Writer: w, Goroutines: 8, Total: 120, Yield: ti%3 == 0, Ticket: ti%2 == 0, TagLen: tl, Out: filepath.Join(dir, id+".updog")})
+		k++
 	}
 	// children: chunks of jobs
 	const per = 8
@@ -476,7 +492,7 @@ func c18Check(r *vf.Run, cid string, job c18Job, jr c18Result) {
 	// the flushed index = sequential insertion in id order
 	rows := make([]oracle.Row, n)
 	for _, op := range jr.Ops {
-		rows[op.ID] = c18Row(op.G, op.I, job.Dup, job.Wide)
+		rows[op.ID] = c18Row(op.G, op.I, job.Dup, job.Wide, job.TagLen)
 	}
 	ds := &gen.Dataset{ID: job.ID, Rows: rows, Unique: "tag"}
 	if job.Dup {
